@@ -299,7 +299,14 @@ class PtyEnv:
             self.replies_dropped = getattr(self, "replies_dropped", 0) + 1
 
     def flush_input(self):
-        """Discards input nobody read (e.g. replies to garbage that looked like a query)."""
+        """Discards input nobody read (replies to garbage that looked like a query, replies
+        that came after the library had given up waiting).  The terminal thread is brought
+        up to date first: a reply still in flight would otherwise arrive after the flush
+        and be taken for the answer to the next query."""
+        try:
+            self.sync()
+        except HarnessTimeout:
+            pass
         termios.tcflush(self.slave, termios.TCIFLUSH)
 
     def type_input(self, data: bytes):
